@@ -7,10 +7,11 @@ Import ListNotations.
 Local Open Scope N_scope.
 
 (* ------------------------------------------------------------------------------------------ *)
-(* a step = the implicit tick, then the event's handler *)
+(* a step = the implicit tick, then the event's handler; both run with the clock of the environment set
+   to the time of the step ([with_clock c now]; the timers fired by the tick set it to their fire time) *)
 
 Definition tick (c : config) (h : hstate) (now : N) (d : draws) : st :=
-  fire_due c {| hs := h; dr := d; outs := [] |} now TICK_FUEL.
+  fire_due (with_clock c now) {| hs := h; dr := d; outs := [] |} now TICK_FUEL.
 
 Definition dispatch (c : config) (s0 : st) (e : event) (now : N) : st :=
   match e with
@@ -29,7 +30,8 @@ Definition dispatch (c : config) (s0 : st) (e : event) (now : N) : st :=
   end.
 
 Lemma step_eq c h e now d :
-  step c h e now d = (hs (dispatch c (tick c h now d) e now), outs (dispatch c (tick c h now d) e now)).
+  step c h e now d = (hs (dispatch (with_clock c now) (tick c h now d) e now),
+                      outs (dispatch (with_clock c now) (tick c h now d) e now)).
 Proof. unfold step, tick, dispatch. reflexivity. Qed.
 
 Lemma tick_QC c h now d : QC {| hs := h; dr := d; outs := [] |} (tick c h now d).
@@ -37,8 +39,6 @@ Proof. apply QC_fire_due. Qed.
 
 Lemma tick_SessD c h now d : SessD h (hs (tick c h now d)).
 Proof. destruct (tick_QC c h now d) as [_ [H _]]. exact H. Qed.
-Lemma tick_SessF c h now d : SessF h (hs (tick c h now d)).
-Proof. apply (QF_fire_due c now TICK_FUEL {| hs := h; dr := d; outs := [] |}). Qed.
 Lemma tick_outs c h now d : Forall quiet_out (outs (tick c h now d)).
 Proof. destruct (tick_QC c h now d) as [_ [_ [[l [E F]] _]]]. rewrite E. exact F. Qed.
 Lemma tick_chall c h now d (P : list (naddr * chall * N) -> Prop) :
@@ -59,32 +59,33 @@ Qed.
    for an arbitrary such state ([..._gen]) so that the body of fire_due is never exposed to the
    unifier or the kernel's conversion *)
 Definition AfterTick (h : hstate) (s0 : st) : Prop :=
-  SessD h (hs s0) /\ SessF h (hs s0) /\ Forall quiet_out (outs s0) /\
+  SessD h (hs s0) /\ Forall quiet_out (outs s0) /\
   incl (challenges (hs s0)) (challenges h).
 Lemma tick_after c h now d : AfterTick h (tick c h now d).
 Proof.
-  split; [apply tick_SessD | split; [apply tick_SessF | split; [apply tick_outs | apply tick_chall_incl]]].
+  split; [apply tick_SessD | split; [apply tick_outs | apply tick_chall_incl]].
 Qed.
 
 Lemma step_inv c h e now d h' out :
   step c h e now d = (h', out) ->
-  h' = hs (dispatch c (tick c h now d) e now) /\ out = outs (dispatch c (tick c h now d) e now).
+  h' = hs (dispatch (with_clock c now) (tick c h now d) e now) /\
+  out = outs (dispatch (with_clock c now) (tick c h now d) e now).
 Proof. rewrite step_eq. intros H. inversion H. split; reflexivity. Qed.
 
 Lemma step_PHs c h from src n aad sg eph eph_ok rec ct now d :
   step c h (EvInbound from (PHs src n aad sg eph eph_ok rec ct)) now d =
-  (hs (handle_auth_message c (tick c h now d) (src, from) n aad sg eph eph_ok rec ct now),
-   outs (handle_auth_message c (tick c h now d) (src, from) n aad sg eph eph_ok rec ct now)).
+  (hs (handle_auth_message (with_clock c now) (tick c h now d) (src, from) n aad sg eph eph_ok rec ct now),
+   outs (handle_auth_message (with_clock c now) (tick c h now d) (src, from) n aad sg eph eph_ok rec ct now)).
 Proof. unfold step, tick. reflexivity. Qed.
 Lemma step_PMsg c h from src n aad ct now d :
   step c h (EvInbound from (PMsg src n aad ct)) now d =
-  (hs (handle_message c (tick c h now d) (src, from) n aad ct now),
-   outs (handle_message c (tick c h now d) (src, from) n aad ct now)).
+  (hs (handle_message (with_clock c now) (tick c h now d) (src, from) n aad ct now),
+   outs (handle_message (with_clock c now) (tick c h now d) (src, from) n aad ct now)).
 Proof. unfold step, tick. reflexivity. Qed.
 Lemma step_PWho c h from n idn seq cd now d :
   step c h (EvInbound from (PWho n idn seq cd)) now d =
-  (hs (handle_challenge c (tick c h now d) from n seq cd now),
-   outs (handle_challenge c (tick c h now d) from n seq cd now)).
+  (hs (handle_challenge (with_clock c now) (tick c h now d) from n seq cd now),
+   outs (handle_challenge (with_clock c now) (tick c h now d) from n seq cd now)).
 Proof. unfold step, tick. reflexivity. Qed.
 
 (* from here on the implicit tick is an abstract state transformer *)
@@ -169,7 +170,7 @@ Qed.
 
 Lemma step_ChallInv c h e now d : ev_wf e -> ChallInv h -> ChallInv (fst (step c h e now d)).
 Proof.
-  intros Hwf Hinv. rewrite step_eq. cbn [fst]. apply dispatch_ChallInv; [exact Hwf |].
+  intros Hwf Hinv. rewrite step_eq. cbn [fst]. apply (dispatch_ChallInv (with_clock c now)); [exact Hwf |].
   apply ChallInv_tick. exact Hinv.
 Qed.
 
@@ -226,7 +227,7 @@ Lemma incoming_identity_gen c h s0 from src n aad sg eph eph_ok rec ct now h' ou
     In ((src, from), ch, deadline) (challenges h) /\
     sg = Sig src (ch_cd ch) eph (cfg_local c) /\ eph_ok = true.
 Proof.
-  intros [TD [TF [TO TI]]] Hfix Hok Eh Eo Heff. symmetry in Eh, Eo.
+  intros [TD [TO TI]] Hfix Hok Eh Eo Heff. symmetry in Eh, Eo.
   pose proof (handle_auth_message_frame c s0 (src, from) n aad sg eph eph_ok rec ct now) as H.
   cbn zeta in H.
   assert (Hnone : forall s', hs s' = h' -> outs s' = out -> SessD (hs s0) (hs s') ->
@@ -264,7 +265,7 @@ Theorem incoming_identity c h from src n aad sg eph eph_ok rec ct now d h' out :
     sg = Sig src (ch_cd ch) eph (cfg_local c) /\ eph_ok = true.
 Proof.
   intros Hfix Hok Hstep. rewrite step_PHs in Hstep. inversion Hstep as [[Eh Eo]].
-  eapply incoming_identity_gen; [apply (tick_after c h now d) | exact Hfix | exact Hok | reflexivity | reflexivity].
+  eapply (incoming_identity_gen (with_clock c now)); [apply (tick_after c h now d) | exact Hfix | exact Hok | reflexivity | reflexivity].
 Qed.
 
 (* Established(Incoming) is reported with a record of the claimed id: the record verified is X's *)
@@ -276,7 +277,7 @@ Lemma incoming_established_id_gen c h s0 from src n aad sg eph eph_ok rec ct now
   a = from /\ (In (OEvent (HUnverifiable e a nid)) out -> nid = src) /\
   (In (OEvent (HEstablished e a true)) out -> e_id e = src).
 Proof.
-  intros [TD [TF [TO TI]]] Hfix Hok Eo Hin. symmetry in Eo.
+  intros [TD [TO TI]] Hfix Hok Eo Hin. symmetry in Eo.
   pose proof (handle_auth_message_frame c s0 (src, from) n aad sg eph eph_ok rec ct now) as H.
   cbn zeta in H.
   assert (Hnone : forall s', outs s' = out -> OutsExt failed_out s0 s' -> False).
@@ -327,7 +328,7 @@ Theorem incoming_established_id c h from src n aad sg eph eph_ok rec ct now d h'
   (In (OEvent (HEstablished e a true)) out -> e_id e = src).
 Proof.
   intros Hfix Hok Hstep. rewrite step_PHs in Hstep. inversion Hstep as [[Eh Eo]].
-  eapply incoming_established_id_gen; [apply (tick_after c h now d) | exact Hfix | exact Hok | reflexivity].
+  eapply (incoming_established_id_gen (with_clock c now)); [apply (tick_after c h now d) | exact Hfix | exact Hok | reflexivity].
 Qed.
 
 (* every event other than an inbound WHOAREYOU / handshake packet: no session is created or re-keyed,
@@ -356,7 +357,7 @@ Theorem only_handshakes_create_sessions c h e now d :
   creates_sessions e = false -> SessD h (fst (step c h e now d)).
 Proof.
   intros He. rewrite step_eq. cbn [fst]. eapply SessD_trans; [apply tick_SessD |].
-  apply dispatch_SessD. exact He.
+  apply (dispatch_SessD (with_clock c now)). exact He.
 Qed.
 
 (* in particular an ordinary message packet never creates a session *)
@@ -377,7 +378,7 @@ Theorem delivered_needs_session c h from src n aad ct now d h' out o :
   quiet_out o \/ msg_out_ok (hs (tick c h now d)) (src, from) n aad ct o.
 Proof.
   intros Hstep Hin. rewrite step_PMsg in Hstep. inversion Hstep as [[Eh Eo]].
-  pose proof (handle_message_frame c (tick c h now d) (src, from) n aad ct now) as [_ HO].
+  pose proof (handle_message_frame (with_clock c now) (tick c h now d) (src, from) n aad ct now) as [_ HO].
   rewrite <- Eo in Hin. exact (outs_after _ _ _ o (tick_outs c h now d) HO Hin).
 Qed.
 
@@ -404,7 +405,7 @@ Lemma attributing_needs_delivery c h from src n aad ct now d h' out o :
 Proof.
   intros Hs Hin Ha. destruct (delivered_needs_session _ _ _ _ _ _ _ _ _ _ _ _ Hs Hin) as [H | H].
   - exfalso. exact (quiet_not_attributing _ H Ha).
-  - destruct o as [[e a inc | na rid body | na rid rb | na n0 | rid err | e a nid] | dst p]; cbn [msg_out_ok attributing] in H, Ha;
+  - destruct o as [[e a inc | na rid body | na rid rb | na n0 | rid err | e a nid | ks] | dst p]; cbn [msg_out_ok attributing] in H, Ha;
       try contradiction.
     + destruct H as [_ [_ [_ [rid [rb H]]]]]. eauto.
     + destruct H as [_ H]. eauto.
@@ -457,7 +458,7 @@ Lemma SessN_KeyInv c na se h h' :
   KeyInv c h -> SessN na se h h' -> (forall k, In k (sess_keys se) -> key_for c (fst na) k) -> KeyInv c h'.
 Proof.
   intros Hi HN Hse na' se' Hin k Hk.
-  destruct (HN _ _ Hin) as [[se0 [H1 [_ H2]]] | [H1 [_ [H2 _]]]].
+  destruct (HN _ _ Hin) as [[se0 [H1 [_ H2]]] | [H1 [H2 _]]].
   - destruct (H2 k Hk) as [H3 | [H3 H4]]; [exact (Hi _ _ H1 _ H3) | subst; auto].
   - subst. auto.
 Qed.
@@ -485,14 +486,14 @@ Lemma dispatch_sessions c h s0 e now :
        s_dec se = mk_key eph (fst na) cd (cfg_local c) (fst na) true /\
        exists from n idn seq, e = EvInbound from (PWho n idn seq cd)).
 Proof.
-  intros [TD [TF [TO TI]]]. cbn zeta. destruct (creates_sessions e) eqn:Ec.
+  intros [TD [TO TI]]. cbn zeta. destruct (creates_sessions e) eqn:Ec.
   2:{ left. eapply SessD_trans; [exact TD | apply dispatch_SessD; exact Ec]. }
   destruct e as [| | | from p |]; try discriminate.
   destruct p as [| n idn seq cd | src n aad sg eph eph_ok rec ct]; try discriminate.
   - cbn [dispatch].
     destruct (handle_challenge_frame c s0 from n seq cd now) as [[_ [D _]] | [ct [eph [aw [E [HN _]]]]]].
     + left. eapply SessD_trans; [exact TD | exact D].
-    + right. eexists. eexists. split; [eapply SessD_F_N; [exact TD | exact TF | exact HN] |].
+    + right. eexists. eexists. split; [eapply SessD_N; [exact TD | exact HN] |].
       split; [reflexivity | split; [reflexivity |]]. exists eph, cd. right.
       split; [reflexivity | split; [reflexivity |]]. eauto.
   - cbn [dispatch].
@@ -501,7 +502,7 @@ Proof.
     + destruct (establish c (fst (src, from)) ch sg eph eph_ok rec) as [se e0 | |] eqn:Ee.
       * destruct H as [s4 [_ [HN [_ [_ [_ [[_ [D _]] _]]]]]]]. right. exists (src, from), se.
         destruct (establish_session _ _ _ _ _ _ _ _ _ Ee) as [Ese _].
-        split; [eapply SessD_F_N; [exact TD | exact TF | eapply SessN_D; eauto] |].
+        split; [eapply SessD_N; [exact TD | eapply SessN_D; eauto] |].
         rewrite Ese at 1 2. split; [reflexivity | split; [reflexivity |]].
         exists eph, (ch_cd ch). left. rewrite Ese at 1 2. cbn [s_dec s_enc fst].
         split; [reflexivity | split; [reflexivity |]].
@@ -528,7 +529,7 @@ Lemma step_sessions c h e now d :
        s_dec se = mk_key eph (fst na) cd (cfg_local c) (fst na) true /\
        exists from n idn seq, e = EvInbound from (PWho n idn seq cd)).
 Proof.
-  cbn zeta. rewrite step_eq. cbn [fst]. apply dispatch_sessions. apply tick_after.
+  cbn zeta. rewrite step_eq. cbn [fst]. apply (dispatch_sessions (with_clock c now)). apply tick_after.
 Qed.
 
 Theorem step_KeyInv c h e now d : KeyInv c h -> KeyInv c (fst (step c h e now d)).
@@ -596,7 +597,7 @@ Proof. destruct (tick_QC c h now d) as [_ [_ [_ U]]]. exact U. Qed.
 
 Theorem step_SessUniq c h e now d : SessUniq h -> SessUniq (fst (step c h e now d)).
 Proof.
-  intros HU. rewrite step_eq. cbn [fst]. apply dispatch_UPres. apply tick_UPres. exact HU.
+  intros HU. rewrite step_eq. cbn [fst]. apply (dispatch_UPres (with_clock c now)). apply tick_UPres. exact HU.
 Qed.
 
 Theorem run_SessUniq c evs : SessUniq (fst (run c init_state evs)).
